@@ -601,8 +601,8 @@ func c03Defects() []spDefect {
 		{"ap-pac-valid", func(c *spCase, r *RNG) { c.ap.pac = "valid" }},
 		// ... with a session manager: what is stored for the requests of the session is the identity that was served
 		// (the PAC's account name is not the ticket's client name string)
-		{"ap-pac-valid+session", func(c *spCase, r *RNG) { c.ap.pac = "valid"; c.session = "getfails" }},
-		{"ap-pac-valid-second+session", func(c *spCase, r *RNG) { c.ap.pac = "valid-second"; c.session = "empty" }},
+		{"session+ap-pac-valid", func(c *spCase, r *RNG) { c.ap.pac = "valid"; c.session = "getfails" }},
+		{"session+ap-pac-valid-second", func(c *spCase, r *RNG) { c.ap.pac = "valid-second"; c.session = "empty" }},
 		{"ap-pac-badsig", func(c *spCase, r *RNG) { c.ap.pac = "badsig" }},
 		{"ap-tktrealm", func(c *spCase, r *RNG) { c.ap.tktRealm = "OTHER.REALM" }},
 		{"ap-krbtgt", func(c *spCase, r *RNG) { c.ap.sname = []string{"krbtgt", "TEST.GOKRB5"} }},
